@@ -32,8 +32,10 @@
        Session 4d: `while` loops without `break` nested to any depth as loop-body statements (`compile_correct_nested_while`,
        `compile_correct_loops_any_depth`); the entry moves of functions with > 240 parameters (`fn_moveargs_correct`,
        `fn_moveargs_allocated`: first far-register theorems).
+       a loop with an unconditional `(break)` (`compile_correct_while_break`: the placeholder patch); `set` whose value contains
+       `def`s of other names (`compile_correct_set_def`: `MutInj` across `def`, compile-only induction).
        NOT proved: `set` / loops as constructors of the fragment (assignments inside operands and loop bodies, loops inside operands
-       or `if` branches), `break`, closure creation and calls of closures, upvalues, far registers beyond the entry moves (see
+       or `if` branches), conditional `break`, closure creation and calls of closures, upvalues, far registers beyond the entry moves (see
        `compile_correct_partial` for the exact list and the reasons). -/
 import JanetModel.Emit.Proofs
 import JanetModel.Bytecode.Exec
@@ -68,6 +70,9 @@ import JanetModel.Compile.SeqSetSideH
 import JanetModel.Compile.MoveArgs
 import JanetModel.Compile.MoveArgsLoop
 import JanetModel.Compile.SeqNestN
+import JanetModel.Compile.SeqMutInjDefEnv
+import JanetModel.Compile.SeqBrkCore
+import JanetModel.Compile.SeqBrkIf
 namespace JanetModel.Props.C02
 open JanetModel.Emit
 
@@ -774,6 +779,74 @@ theorem compile_correct_set_nodef (p : Program) (f0 : Frame) (rest : List Frame)
     tf_mutinj_h G b fuel ve { hint := some dest } { c with cur := q } c2 r sc rs pool ps dest rx rfl rfl hk hcf hr hs hp htop hm hTv hnd
       henv.lkl hv hmi⟩
 
+/-- **`set` with a value that may contain `def`s of other names** (gap (c) of session 4c closed): `NoBind x ve` only for the ASSIGNED
+    variable `x` (so `(set x (def x 5))` stays excluded), instead of `∀ y, NoBind y ve`.  The exit-side conditions of
+    `compile_correct_set` follow from `MutInj c.scopes` / `BoxInj` at ENTRY: `EnvS` marks every resolvable name's register
+    (`EnvS.allocInv`), and a compile-ONLY induction over the fragment, un-hinted and hinted (`tf_pat_at`, `tf_pat_h_at`:
+    Compile/SeqMutInjDefM.lean, SeqMutInjDefH.lean; allocator marks are never cleared by the emit layer: SeqMutInjDefRA.lean), carries
+    "a resolvable local's register lies in the set P of the mutable names' entry registers iff the local is mutable, P stays
+    marked, a returned un-named register is outside P": a `def` names a fresh first-fit register (`farslot_fresh`: un-marked before)
+    or aliases an IMMUTABLE source (`namelocal_mutinj`), so no new name ever holds a mutable name's register (`tf_mutinj_def_h`,
+    `set_hside_def`). -/
+theorem compile_correct_set_def (p : Program) (f0 : Frame) (rest : List Frame) (V : Array Value) (P : List JanetModel.Emit.KConst)
+    (hP : P.length < 65536)
+    (hK : ∀ i, i < P.length → (p.defs.getD f0.defIdx default).consts.getD i .nil = litOf V (P.getD i .nil))
+    (FF : FloatFacts) (G : String → Prop) (b : Bool)
+    (fuel : Nat) (x : String) (ve : Expr) (pp : Pos) (opts : Fopts) (c c' : CState) (slot : JSlot) (sc : Scope) (rs : List Scope)
+    (pool : List JanetModel.Emit.KConst) (ps : List (List JanetModel.Emit.KConst)) (n : Nat) (cur : Pos) (env env' : Env) (s s' : SS) (v : Value)
+    (ht : opts.tail = false) (hh : opts.hint = none)
+    (hs : c.scopes = sc :: rs) (hp : c.pools = pool :: ps) (hl : c.lim ≤ 240) (htop : sc.top = false)
+    (hm : c.map.length = c.buf.length) (hTv : TF G b ve) (hnd : NoBind x ve)
+    (hcomp : cValue (fuel + 1) opts (.form [.sym "set", .sym x, ve] pp) c = some (slot, c'))
+    (hsem : eval n cur env (.form [.sym "set", .sym x, ve] pp) s = .ok (v, env') s')
+    (henv : EnvS G c.scopes env s.boxes.size sc.ra)
+    (hmaxx : ∀ dest rx u l, lk c.scopes x = some (dest, u, l) → dest.k = .loc rx → rx ≤ sc.ra.max)
+    (hmi : MutInj c.scopes) (hbi : BoxInj env s.boxes.size) :
+    ∃ rx, SetOK p f0 rest V P G c c' slot rx sc rs pool ps env env' s s' v := by
+  obtain ⟨n2, s1, a0, _, hev, _, _⟩ := eval_set_inv n cur env env' x ve pp s s' v hsem
+  have hsame : lookupEnv env' x = lookupEnv env x :=
+    nobind_env G b x n2 (posOf cur pp) env env' ve s s1 v henv.gfree hTv hnd hev
+  have hA : AllocInv c.scopes := by
+    rw [hs] at henv hmi ⊢
+    exact EnvS.allocInv henv hmi
+  exact compile_correct_set p f0 rest V P hP hK FF G b fuel x ve pp opts c c' slot sc rs pool ps n cur env env' s s' v ht hh hs hp hl htop hm
+    hTv hcomp hsem henv hmaxx
+    (set_hside_def G b fuel x ve c sc rs pool ps hs hp htop hm (by omega) hTv hnd henv.lkl hA
+      (fun dest u l rx hlk hk => by
+        obtain ⟨_, _, _, r', a, hk', _, _, _, hr⟩ := henv.found hlk
+        rw [hk] at hk'
+        simp only [Slot.loc.injEq] at hk'
+        subst hk'
+        exact hr))
+    (fun a ha => by rw [hsame]; exact ha) hbi
+
+/-- non-vacuity: the value `(upscope (def y 5) (tuple y x))` of `(set x …)` binds `y`, not `x`: `NoBind "x"` holds, `NoBind "y"` fails
+    (so `compile_correct_set_nodef` does not apply), and it is in the fragment -/
+example : NoBind "x" (.form [.sym "upscope", .form [.sym "def", .sym "y", .lit (.num 5)] {}, .form [.sym "tuple", .sym "y", .sym "x"] {}] {}) ∧
+    ¬ NoBind "y" (.form [.sym "upscope", .form [.sym "def", .sym "y", .lit (.num 5)] {}, .form [.sym "tuple", .sym "y", .sym "x"] {}] {}) := by
+  constructor
+  · refine .form _ _ (fun e he => ?_) (fun y r h => by simp at h)
+    simp only [List.mem_cons, List.not_mem_nil, or_false] at he
+    rcases he with rfl | rfl | rfl
+    · exact .sym _
+    · refine .form _ _ (fun e he => ?_) (fun y r h => by
+        simp only [List.cons.injEq, Expr.sym.injEq, true_and] at h; rw [← h.1]; decide)
+      simp only [List.mem_cons, List.not_mem_nil, or_false] at he
+      rcases he with rfl | rfl | rfl
+      · exact .sym _
+      · exact .sym _
+      · exact .lit _
+    · refine .form _ _ (fun e he => ?_) (fun y r h => by simp at h)
+      simp only [List.mem_cons, List.not_mem_nil, or_false] at he
+      rcases he with rfl | rfl | rfl <;> exact .sym _
+  · intro h
+    cases h with
+    | form l p h1 h2 =>
+      have := h1 (.form [.sym "def", .sym "y", .lit (.num 5)] {}) (by simp)
+      cases this with
+      | form l' p' h3 h4 => exact h4 "y" _ rfl rfl
+
+
 /-- **`var` declarations**: `(var x e)` with `e` in the fragment `TF G b`, in a local scope, value used or dropped (no hint).
     `janetc_var` = the value, then `namelocal` with the MUTABLE flag: never an alias — always a fresh register and a copy — and the new
     name's slot is flagged mutable; `Lang/Sem` binds a fresh box, as for `def`.  Conclusion `Correct2 … false …` (value in the result
@@ -979,6 +1052,62 @@ theorem compile_correct_loops_any_depth (p : Program) (f0 : Frame) (rest : List 
   rw [Bool.and_true] at h
   exact h
 
+/-- **`do` blocks whose statements are fragment forms or loops nested to any depth** (`compile_correct_block_loops` for `TFWn G k`:
+    `do_core` instantiated with `tfwn_correct` / `tfwn_ML`). -/
+theorem compile_correct_block_nested_loops (p : Program) (f0 : Frame) (rest : List Frame) (V : Array Value) (P : List JanetModel.Emit.KConst)
+    (hP : P.length < 65536)
+    (hK : ∀ i, i < P.length → (p.defs.getD f0.defIdx default).consts.getD i .nil = litOf V (P.getD i .nil))
+    (FF : FloatFacts) (G : String → Prop) (k fuel : Nat) (body : List Expr) (hT : ∀ e, e ∈ body → TFWn G k e)
+    (opts : Fopts) (c c' : CState) (slot : JSlot) (sc : Scope) (rs : List Scope) (pool : List JanetModel.Emit.KConst)
+    (ps : List (List JanetModel.Emit.KConst)) (n : Nat) (cur : Pos) (env envb : Env) (s s' : SS) (v : Value)
+    (ht : opts.tail = false) (hh : opts.hint = none) (hs : c.scopes = sc :: rs) (hp : c.pools = pool :: ps) (hl : c.lim ≤ 240)
+    (hm : c.map.length = c.buf.length)
+    (hc : cDo (cValue fuel) opts body c = some (slot, c')) (hsem : evalSeq n cur env body s = .ok (v, envb) s')
+    (hE : EnvS G c.scopes env s.boxes.size sc.ra) :
+    Correct2 p f0 rest V P G opts.drop c c' slot sc rs pool ps env env s s' v := by
+  have h := do_core p f0 rest V P G (TFWn G k) true fuel (tfwn_correct p f0 rest V P hP hK FF G k fuel) (tfwn_ML G k fuel) body hT
+    opts c c' slot sc rs pool ps n cur env envb s s' v ht hh hs hp hl (fun _ => hm) hc hsem hE
+  rw [Bool.and_true] at h
+  exact h
+
+/-- **A `while` loop WITH `break`** — the break-placeholder patch (gap (a)): `(while cnd pre… (break) post…)`, `CondOK cnd`, `TF G true cnd`,
+    the statements of `pre` and `post` fragment forms or loops without `break` (`TFW G true`).  `janetc_break` in a while scope that is
+    not a function scope emits the placeholder `0x80 | JOP_JUMP` (`cValue_break_o`); after the loop is compiled `janetc_while` rewrites
+    every placeholder between the loop start and `:done` into `JUMP (done − i)`.  Here exactly one index holds the placeholder
+    (`pre` / `post` / `cnd` emit none: `BodyNbr`, `tf_nobrk`), and the rewrite is NOT the identity: `brkRewrite_one` maps it to the jump
+    and leaves every other instruction alone.  `Lang/Sem`: `cnd`, `pre`, then the `.brk` outcome ends the loop with nil; `post` and the
+    `JUMP` back are dead code (compile-only shape / `max` facts).  The VM runs the condition's code, `JUMP_IF_NOT` not taken, `pre`'s
+    code, and the rewritten jump lands exactly on the loop's end label; condition falsy at the first test: as without `break`;
+    constant truthy condition (`while true`): no conditional jump (`while_break_inf`).  Compile/SeqBrk.lean, SeqBrkJump.lean,
+    SeqBrkInf.lean, SeqBrkCore.lean.  `hrg`: the loop's code is at most 0x7FFFFF instructions — `janetc_while` checks the JUMP back
+    (`labeljt − labelwt > 0x7FFFFF` is refused) but not the break jump `done − i`, which is one larger when `(break)` is the first
+    instruction of a `while true` loop; the VM's 24-bit signed field holds at most 0x7FFFFF (see notes/C02.md "Session 4d").
+    NOT proved: a conditional break `(if c (break))` in an iterating loop (semantic side only: `eval_ifbreak`, SeqBrkIf.lean), `break`
+    with a value, `break` out of a loop compiled as a function. -/
+theorem compile_correct_while_break (p : Program) (f0 : Frame) (rest : List Frame) (V : Array Value) (P : List JanetModel.Emit.KConst)
+    (hP : P.length < 65536)
+    (hK : ∀ i, i < P.length → (p.defs.getD f0.defIdx default).consts.getD i .nil = litOf V (P.getD i .nil))
+    (FF : FloatFacts) (G : String → Prop)
+    (fuel : Nat) (cnd : Expr) (pre post : List Expr) (bp pp : Pos) (opts : Fopts) (c c' : CState) (slot : JSlot) (sc : Scope) (rs : List Scope)
+    (pool : List JanetModel.Emit.KConst) (ps : List (List JanetModel.Emit.KConst)) (n : Nat) (cur : Pos) (env env' : Env) (s s' : SS) (v : Value)
+    (ht : opts.tail = false) (hh : opts.hint = none)
+    (hs : c.scopes = sc :: rs) (hp : c.pools = pool :: ps) (hl : c.lim ≤ 240) (hm : c.map.length = c.buf.length)
+    (hok : CondOK cnd) (hTc : TF G true cnd) (hTpre : ∀ e, e ∈ pre → TFW G true e) (hTpost : ∀ e, e ∈ post → TFW G true e)
+    (hcomp : cValue (fuel + 1) opts (.form (.sym "while" :: cnd :: (pre ++ .form [.sym "break"] bp :: post)) pp) c = some (slot, c'))
+    (hrg : c'.buf.length - c.buf.length ≤ 8388607)
+    (hsem : eval n cur env (.form (.sym "while" :: cnd :: (pre ++ .form [.sym "break"] bp :: post)) pp) s = .ok (v, env') s')
+    (henv : EnvS G c.scopes env s.boxes.size sc.ra) :
+    Correct2 p f0 rest V P G opts.drop c c' slot sc rs pool ps env env' s s' v :=
+  while_break_core p f0 rest V P hP hK FF G fuel cnd pre post bp pp hTc hTpre hTpost hok opts c c' slot sc rs pool ps n cur env env' s s' v
+    ht hh hs hp hl hm hcomp hrg hsem henv
+
+/-- non-vacuity: `Lang/Sem` runs `(do (def a (array :x :y)) (while (array/pop a) (emit :t) (break) (emit :dead)))`: one round, one
+    effect, value nil — the loop ends by the `break`, `(emit :dead)` never runs, and `a` still holds one element -/
+example : (match eval 30 {} [] (.form [.sym "do", .form [.sym "def", .sym "a", .form [.sym "array", .lit (.kw "x"), .lit (.kw "y")] {}] {},
+            .form [.sym "while", .form [.sym "array/pop", .sym "a"] {}, .form [.sym "emit", .lit (.kw "t")] {}, .form [.sym "break"] {},
+              .form [.sym "emit", .lit (.kw "dead")] {}] {}] {}) {} with
+           | .ok (.nil, _) s => s.st.trace.size == 1 | _ => false) = true := by decide
+
 /-- non-vacuity: `Lang/Sem` runs a doubly nested loop of the fragment to completion —
     `(do (def a (array :x :y)) (def b (array 1 2 3)) (while (array/pop a) (while (array/pop b) (emit :in)) (emit :out)))`:
     2 outer rounds, the inner loop runs 3 times in the first and 0 times in the second: 5 effects; and the loop is in `TFWn G 2` -/
@@ -1166,8 +1295,9 @@ example : ({ tail := true } : Fopts).tail = true ∧ ({ tail := true } : Fopts).
     constant-value induction); `set` as a CONSTRUCTOR of the fragment (the statement `(set x e)` itself is proved: `compile_correct_set`): across a `set` the
     frame clause "every register allocated at entry keeps its content" and the prefix-stability of the boxes are false and must be
     restated relative to the mutable names a form reaches; the invariant needs injectivity of mutable names' registers and of
-    boxes carried by `EnvS` (now side conditions); with `set` inside operands the n-ary call needs the side condition that no
-    operand is a variable a later operand sets (janet reads operand registers when the call is made); loops whose body assigns, destructuring `def`, `break` (`.brk` is a third outcome of every form: an induction like the error outcome;
+    boxes carried by `EnvS` (side conditions at ENTRY only since `compile_correct_set_def`: values may contain `def`s of other names); with `set` inside operands the n-ary call needs the side condition that no
+    operand is a variable a later operand sets (janet reads operand registers when the call is made); loops whose body assigns, destructuring `def`, `break` in general (`.brk` is a third outcome of every form: an induction like the error outcome; the placeholder
+    patch itself is proved for a loop with an unconditional `(break)` statement: `compile_correct_while_break`;
     a single `while` without `break` over the fragment is `compile_correct_while`; loops nested to any depth as loop-body statements:
     `compile_correct_nested_while`, `compile_correct_loops_any_depth`; a loop inside an operand / `if` branch / as a condition: not proved), `fn`: closure CREATION and calls of closures (heap relation between `Lang/Sem`'s lambdas and the VM's closure objects), the
     self name, `&`-parameters, upvalues (`janetc_popscope`'s `keep` reservations are modelled and compared word for word, not
